@@ -56,7 +56,7 @@ func NewMerger(less func(a, b *sam.Record) bool, src ...*Reader) (*Merger, error
 		return nil, io.EOF
 	}
 
-	m := &Merger{readers: make([]*reader, len(src))}
+	m := &Merger{readers: make([]*reader, 0, len(src))}
 
 	headers := make([]*sam.Header, len(src))
 	so := src[0].Header().SortOrder
@@ -90,12 +90,19 @@ func NewMerger(less func(a, b *sam.Record) bool, src ...*Reader) (*Merger, error
 		if m.less == nil {
 			readers[i].id = i
 			readers[i].r = r
-			m.readers[i] = &readers[i]
+			m.readers = append(m.readers, &readers[i])
 			continue
 		}
 		rec, err := r.Read()
-		readers[i] = reader{id: i, r: r, head: rec, err: err}
-		m.readers[i] = &readers[i]
+		if err != nil {
+			if err == io.EOF {
+				// An empty input has nothing to merge.
+				continue
+			}
+			return nil, err
+		}
+		readers[i] = reader{id: i, r: r, head: rec}
+		m.readers = append(m.readers, &readers[i])
 	}
 	if m.less != nil {
 		heap.Init((*bySortOrderAndID)(m))
@@ -141,17 +148,18 @@ func (m *Merger) cat() (rec *sam.Record, err error) {
 }
 
 func (m *Merger) nextBySortOrder() (rec *sam.Record, err error) {
+	// Every queued reader holds a record that has been read without error.
 	reader := m.pop()
-	rec, err = reader.head, reader.err
+	rec = reader.head
 	reader.head, reader.err = reader.r.Read()
-	if reader.err == nil {
+	switch reader.err {
+	case nil:
 		m.push(reader)
-	}
-	if rec == nil {
-		return m.Read()
-	}
-	if err == io.EOF {
-		err = nil
+	case io.EOF:
+		// The input is exhausted.
+	default:
+		// The input failed: report it with the last record it delivered.
+		err = reader.err
 	}
 	m.reassignReference(reader.id, rec)
 	return rec, err
